@@ -38,7 +38,8 @@ def run(rep: common.Report, tier: str, seed: int, replay=None) -> int:
     rng = random.Random(seed * 7919 + 9)
     configs = [dict(screening=False, adaptive=True, ramp=False, solve_time=0.3),
                dict(screening=True, adaptive=True, ramp=False, solve_time=0.08),
-               dict(screening=False, adaptive=False, ramp=True, solve_time=0.12)]
+               dict(screening=False, adaptive=False, ramp=True, solve_time=0.12),
+               dict(screening=False, adaptive=True, ramp=False, solve_time=0.15, four_terminals=True)]
     if tier == "thorough":
         configs += [dict(screening=True, adaptive=True, ramp=True, solve_time=0.08), dict(screening=False, adaptive=True, ramp=True, solve_time=0.3, mel=0.6)]
     variants = [(1, 0), (4, 1), (16, 2), (2, 3)] if tier == "quick" else [(1, 0), (2, 1), (4, 2), (8, 3), (16, 4), (16, 5), (1, 6), (3, 7)]
